@@ -330,43 +330,85 @@ def run(ctx):
                   "expand(compress(c)) = %s, not c (compress: %s, expand: "
                   "%s)" % (sp.simplify(me.subs(c, mc)), mc, me),
                   {"compress": str(mc), "expand": str(me)}, es[key][-1])
-    for fam in (("CDELT1", "CD1_1"), ("CDELT2", "CD2_2")):
-        for key in fam:
-            a, b = cs.get(key, []), es.get(key, [])
-            from ..core import as_update
-            ua = as_update(a[0]) if len(a) == 1 else None
-            ub = as_update(b[0]) if len(b) == 1 else None
-            ok = ua is not None and ub is not None and \
-                ua[1] is ast.Mult and ub[1] is ast.Div and \
-                ua[2] == "factor" and ub[2] == "factor"
-            ctx.check("C15-R2", exp, "%s scaled *factor then /factor" % key,
-                      ok, "%s: compress %s, expand %s" %
-                      (key, [norm(x) for x in a], [norm(x) for x in b]),
-                      node=(b or a or [exp.node])[0])
-    # every key that one side rescales by the factor is rescaled back by
-    # the other side (not only the four diagonal keys above)
-    from ..core import as_update as _asu
-
-    def scaled(stores):
-        out = {}
-        for key, sts in stores.items():
-            for st in sts:
-                u = _asu(st)
-                if u is not None and u[1] in (ast.Mult, ast.Div) and \
-                        u[2] == "factor":
-                    out.setdefault(key, []).append(u[1])
-        return out
-    sc, se = scaled(cs), scaled(es)
-    for key in sorted(set(sc) | set(se)):
-        a_, b_ = sc.get(key, []), se.get(key, [])
-        ok = len(a_) == 1 and len(b_) == 1 and {a_[0], b_[0]} == {ast.Mult,
-                                                                  ast.Div}
-        ctx.check("C15-R2", exp, "%s rescaled by compress and back by "
-                  "expand" % key, ok,
-                  "%s is rescaled by the factor %d time(s) in compress and "
-                  "%d time(s) in expand: compress followed by expand does "
-                  "not restore this WCS keyword" % (key, len(a_), len(b_)),
-                  node=(cs.get(key) or es.get(key))[0])
+    # the header as a whole: compress followed by expand, interpreted over
+    # model headers (which WCS keywords exist is the scenario), restores
+    # every original keyword and removes every BN_ keyword -- whatever
+    # helpers the updates are written with
+    from .. import headermodel as hm
+    fS = sp.Symbol("f", positive=True, integer=True)
+    base = ["CRPIX1", "CRPIX2", "NAXIS1", "NAXIS2", "CRVAL1", "CRVAL2"]
+    scen = (("CDELT", ["CDELT1", "CDELT2"]), ("CD", ["CD1_1", "CD2_2"]),
+            ("CDELT+CD", ["CDELT1", "CDELT2", "CD1_1", "CD2_2"]),
+            ("CDELT1+CD2_2", ["CDELT1", "CD2_2"]))
+    # every keyword the module's code mentions takes part in a scenario
+    import re as _re
+    mentioned = set()
+    for q_, f_ in prog.functions.items():
+        if f_.module != comp.module:
+            continue
+        for x_ in ast.walk(f_.node):
+            if isinstance(x_, ast.Constant) and isinstance(x_.value, str) \
+                    and _re.fullmatch(r"[A-Z][A-Z0-9_]{1,7}", x_.value) and \
+                    not x_.value.startswith("BN_") and \
+                    x_.value not in ("HISTORY", "COMMENT", "NAXIS", "BSCALE",
+                                     "BZERO"):
+                mentioned.add(x_.value)
+    extra = sorted(mentioned - set(base))
+    scen += (("every keyword the module mentions", extra),
+             ("CD matrix", sorted(k for k in set(extra) |
+                                  {"CD1_1", "CD1_2", "CD2_1", "CD2_2"}
+                                  if k.startswith("CD") and "_" in k)))
+    nmod = 0
+    for sname, keys in scen:
+        h0 = {k: sp.Symbol("h_" + k, real=True)
+              for k in dict.fromkeys(base + list(keys))}
+        try:
+            outs = hm.Machine(prog, mod, ("header",),
+                              {"factor": fS}).outcomes(comp, h0)
+        except hm.GiveUp as e:
+            raise AnalysisError("C15-R2: header effects of compress: %s" % e)
+        good = [o for o in outs if not o[0] and not (
+            isinstance(o[2], tuple) and o[2] and o[2][0] == "raises")]
+        models = {}
+        for o in good:
+            models.setdefault(str(sorted((k, str(v)) for k, v in
+                                         o[1].items())), o[1])
+        ctx.check("C15-R2", comp, "compress succeeds on a %s header "
+                  "(%d path(s), %d header result(s))" %
+                  (sname, len(good), len(models)), bool(models),
+                  "no successful path of compress for a header with %s" %
+                  keys, node=comp.node)
+        for hc in models.values():
+            try:
+                outs2 = hm.Machine(prog, mod, ("header",), {}).outcomes(exp,
+                                                                        hc)
+            except hm.GiveUp as e:
+                raise AnalysisError("C15-R2: header effects of expand: %s"
+                                    % e)
+            good2 = [o for o in outs2 if not o[0] and not (
+                isinstance(o[2], tuple) and o[2] and o[2][0] == "raises")]
+            ctx.check("C15-R2", exp, "expand succeeds on the compressed %s "
+                      "header" % sname, bool(good2),
+                      "no successful path of expand on the header compress "
+                      "wrote (%s)" % sorted(hc), node=exp.node)
+            for o in good2:
+                he = o[1]
+                for k in sorted(h0):
+                    nmod += 1
+                    v = he.get(k)
+                    same = v is not None and v is not hm.OPAQUE and \
+                        sp.simplify(sp.sympify(v) - h0[k]) == 0
+                    ctx.check("C15-R2", exp, "%s header: %s restored by "
+                              "expand o compress" % (sname, k), bool(same),
+                              "%s after compress = %s, after expand = %s "
+                              "(original h_%s): compress followed by expand "
+                              "does not restore this keyword" %
+                              (k, hc.get(k), v, k), node=exp.node)
+                left = sorted(k for k in he if k.startswith("BN_"))
+                ctx.check("C15-R2", exp, "%s header: no BN_ keyword left" %
+                          sname, not left, "expand leaves %s in the header" %
+                          left, node=exp.node)
+    ctx.floor("C15-R2", nmod, 20, "keyword restorations examined")
     # ---------------------------------------------------------------- R3
     ctx.rule("C15-R3", "the decimation stride, BN_CFAC and expand's node "
              "spacing are one value; node k at k*factor; grid extents rows <- "
